@@ -608,6 +608,26 @@ def _assign_env (repo, module, st, env, cls):
           _kill(ne, x.id); ne.exact[x.id] = v
         return ne
     except Exception: pass
+  if isinstance(st, ast.Assign) and len(st.targets) == 1 and isinstance(st.targets[0], ast.Attribute) and isinstance(st.targets[0].value, ast.Name):
+    key = norm(st.targets[0])
+    try: val = eval_env2(repo, module, st.value, env, cls); known = True
+    except Exception: known = False
+    for k in list(ne.exact):
+      if key in k: del ne.exact[k]
+    if known and val is not OPAQUE: ne.exact[key] = val
+    return ne
+  if isinstance(st, ast.AugAssign) and isinstance(st.target, ast.Attribute) and isinstance(st.target.value, ast.Name):
+    key = norm(st.target)
+    try:
+      val = eval_env2(repo, module, ast.BinOp(left=st.target, op=st.op, right=st.value), env, cls)
+      for k in list(ne.exact):
+        if key in k: del ne.exact[k]
+      ne.exact[key] = val
+      return ne
+    except Exception:
+      for k in list(ne.exact):
+        if key in k: del ne.exact[k]
+      return ne
   if isinstance(st, ast.AugAssign) and isinstance(st.target, ast.Name):
     nm = st.target.id
     try:
@@ -700,3 +720,15 @@ class PureCallHook(object):
     vals = [r for r in res if r is not _Unknown]
     if res and len(vals) == len(res) and all(v == vals[0] for v in vals): return (True, vals[0])
     return (False, None)
+
+
+def replay (repo, module, path, env0, cls=None):
+  """walk an explicit node path applying constant propagation; yields (node, env_before_node)"""
+  env = env0
+  for i, n in enumerate(path):
+    yield n, env
+    if n.kind == 'stmt' and isinstance(n.ast, (ast.Assign, ast.AugAssign)):
+      env = _assign_env(repo, module, n.ast, env, cls)
+    elif n.kind == 'for':
+      for t in _flatten(n.ast.target):
+        if isinstance(t, ast.Name): env = _bind_target(t, OPAQUE, env)
